@@ -153,3 +153,22 @@ Theorem checker_characterisation :
     C14_check r recmsg summsg = true <-> fits r /\ recmsg = record_msg r /\ summsg = summary_msg r.
 Proof. exact checker_characterisation_proof. Qed.
 Print Assumptions checker_characterisation.
+
+(* ---- batches: a message that is held while later messages are built ---- *)
+
+(* the model's messages for any list of in-domain records pass the batch checker together ... *)
+Theorem batch_passes_checker :
+  forall rs : list record, Forall fits rs ->
+    C14_check_batch (map (fun r => (r, record_msg r, summary_msg r)) rs) = true.
+Proof. exact batch_passes_proof. Qed.
+Print Assumptions batch_passes_checker.
+
+(* ... and the batch checker accepts exactly the batches in which EVERY held message is still, byte for byte,
+   the message of its own record (whatever was built after it) *)
+Theorem batch_characterisation :
+  forall b : list (record * list (list Z) * list (list Z)),
+    C14_check_batch b = true <->
+    Forall (fun t => fits (fst (fst t)) /\ snd (fst t) = record_msg (fst (fst t)) /\
+                     snd t = summary_msg (fst (fst t))) b.
+Proof. exact batch_characterisation_proof. Qed.
+Print Assumptions batch_characterisation.
